@@ -3,6 +3,8 @@ CONSTANTS N = 3
   Ports <- MCPorts
   MissLens <- MCMissLens
   MaxLens <- MCMaxLens
+  ListsPO <- MCListsPO
+  ListsFM <- MCListsFM
   D = 0
 INIT TrInit
 NEXT TrNext
